@@ -63,6 +63,19 @@ CLAIMED.update({
              "are, by vm_compute); the while-loop equivalence is established per generated loop by the spec oracle.",
         technique="Coq proof (induction on fuel) + spec oracle (sequential loop) + differential correspondence",
     ),
+    "C08": dict(
+        category="proof",
+        text="Theorems for every node list, binding, entry-point and selection configuration: required / optional / entry-point "
+             "parameters are pairwise disjoint; a required name is neither bound nor defaulted; omitting a required name is never "
+             "accepted; required names present + every cycle seeded through one listed entry point is accepted; binding removes a name "
+             "from required; a scheduled node can always resolve its inputs (no KeyError). Tied to /repo by comparing Graph.inputs and the "
+             "runner's accept/reject decision with the model for every single omission, with call and event logs checked empty on rejection.",
+        design_ref="DESIGN.md section 5 C08",
+        note="validate_inputs is modelled for calls that supply graph inputs only (no internal overrides / bound output names: known "
+             "finding territory F-g); the selection scope has an order-dependent worklist in the implementation and is modelled by its "
+             "two extremes; sufficiency for cyclic/gated graphs is acceptance + resolvability, not 'every intended node runs'.",
+        technique="Coq proof (filter characterisation of compute_input_spec / validate_inputs) + differential correspondence per omission",
+    ),
     "C16": dict(
         category="proof",
         text="Theorems: with entry points only active nodes are ever scheduled (every state); a returned key is a declared output (or a "
